@@ -363,6 +363,15 @@ func (wr *worldRunner) runCase(prop string, p profile, r *rng.R, stats map[strin
 		var runs []string
 		var perOp [][]string
 		for rep := 0; rep < 3; rep++ {
+			if rep == 1 {
+				// between two replays, ANOTHER history (the previous case's) runs on a branch that is thrown away - a
+				// simulated or failed transaction: nothing of it is in the state, so nothing of it may show in the replay
+				pctx := wr.caseCtx()
+				for _, o := range wr.lastOps {
+					wr.w.Transcript(pctx, o)
+				}
+				wr.w.Transcript(pctx, world.Op{Kind: "msg", Msg: world.Msg{Kind: "UpdateParams", Signer: sim.Authority, Max: 4242}})
+			}
 			rctx := wr.caseCtx()
 			for _, ch := range dstChans {
 				for _, d := range wr.w.Denoms {
@@ -401,6 +410,12 @@ func (wr *worldRunner) runCase(prop string, p profile, r *rng.R, stats map[strin
 				}
 			}
 			break
+		}
+	}
+	if prop == "C19" {
+		wr.lastOps = wr.lastOps[:0]
+		for _, pl := range ops {
+			wr.lastOps = append(wr.lastOps, pl.op)
 		}
 	}
 	input := "(" + maskCoq(p.mask) + ", " + wr.coqHeader(before, strsB, strsI, opTerms, before.State) + ")"
